@@ -295,114 +295,125 @@ func minimise(t *term, prefix string, budget int) (*term, verdict) {
 	cur := t
 	var curV verdict
 	have := false
-	for {
-		improved := false
-		// all nodes in preorder with a way to rebuild the tree with that node replaced
-		type site struct {
-			node    *term
-			replace func(by *term) *term
-		}
-		var sites []site
-		var walk func(n *term, rebuild func(*term) *term)
-		walk = func(n *term, rebuild func(*term) *term) {
-			sites = append(sites, site{n, rebuild})
-			for i := range n.kids {
-				i := i
-				walk(n.kids[i], func(by *term) *term {
-					c := &term{kind: n.kind, kids: append([]*term(nil), n.kids...)}
-					c.kids[i] = by
-					return rebuild(c)
-				})
+	for again := true; again; {
+		again = false
+		for {
+			improved := false
+			// all nodes in preorder with a way to rebuild the tree with that node replaced
+			type site struct {
+				node    *term
+				replace func(by *term) *term
 			}
-		}
-		walk(cur, func(by *term) *term { return by })
-		var cands []*term
-		for _, s := range sites[1:] {
-			if s.node.kind != "_" {
-				cands = append(cands, s.replace(leafTerm())) // drop the subtree
-			}
-		}
-		for _, s := range sites[1:] {
-			if s.node.kind != "_" && !strings.HasPrefix(s.node.kind, "$") {
-				cands = append(cands, s.node) // hoist to the root
-			}
-		}
-		for _, s := range sites {
-			for _, k := range s.node.kids {
-				if k.kind != "_" {
-					cands = append(cands, s.replace(k)) // splice a child in place of its parent
+			var sites []site
+			var walk func(n *term, rebuild func(*term) *term)
+			walk = func(n *term, rebuild func(*term) *term) {
+				sites = append(sites, site{n, rebuild})
+				for i := range n.kids {
+					i := i
+					walk(n.kids[i], func(by *term) *term {
+						c := &term{kind: n.kind, kids: append([]*term(nil), n.kids...)}
+						c.kids[i] = by
+						return rebuild(c)
+					})
 				}
 			}
-		}
-		sort.SliceStable(cands, func(a, b int) bool { return cands[a].deviations() < cands[b].deviations() })
-		for _, c := range cands {
-			if v, fails := try(c); fails {
-				cur, curV, have, improved = c, v, true, true
+			walk(cur, func(by *term) *term { return by })
+			var cands []*term
+			for _, s := range sites[1:] {
+				if s.node.kind != "_" {
+					cands = append(cands, s.replace(leafTerm())) // drop the subtree
+				}
+			}
+			for _, s := range sites[1:] {
+				if s.node.kind != "_" && !strings.HasPrefix(s.node.kind, "$") {
+					cands = append(cands, s.node) // hoist to the root
+				}
+			}
+			for _, s := range sites {
+				for _, k := range s.node.kids {
+					if k.kind != "_" {
+						cands = append(cands, s.replace(k)) // splice a child in place of its parent
+					}
+				}
+			}
+			sort.SliceStable(cands, func(a, b int) bool { return cands[a].deviations() < cands[b].deviations() })
+			for _, c := range cands {
+				if v, fails := try(c); fails {
+					cur, curV, have, improved = c, v, true, true
+					break
+				}
+			}
+			if !improved {
 				break
 			}
 		}
-		if !improved {
-			break
-		}
-	}
-	// canonicalise: a template that is only needed as "some list / some integer / some value" is replaced by
-	// the simplest template of that type, so that one defect does not get one signature per bystander
-	for changed := true; changed; {
-		changed = false
-		var sites []func(by *term) *term
-		var nodes []*term
-		var walk func(n *term, rebuild func(*term) *term)
-		walk = func(n *term, rebuild func(*term) *term) {
-			nodes = append(nodes, n)
-			sites = append(sites, rebuild)
-			for i := range n.kids {
-				i := i
-				walk(n.kids[i], func(by *term) *term {
-					c := &term{kind: n.kind, kids: append([]*term(nil), n.kids...)}
-					c.kids[i] = by
-					return rebuild(c)
-				})
-			}
-		}
-		walk(cur, func(by *term) *term { return by })
-	search:
-		for i := 1; i < len(nodes); i++ {
-			if !isTemplate(nodes[i]) {
-				continue
-			}
-			// a form that only carries one inner form (it is needed for the types to fit, or merely sits in
-			// between) is replaced by progn around that inner form
-			if nodes[i].kind != "pg1" && nodes[i].kind != "pg2" {
-				var only *term
-				count := 0
-				for _, k := range nodes[i].kids {
-					if k.kind != "_" {
-						only = k
-						count++
-					}
+		// canonicalise: a template that is only needed as "some list / some integer / some value" is replaced by
+		// the simplest template of that type, so that one defect does not get one signature per bystander
+		for changed := true; changed; {
+			changed = false
+			var sites []func(by *term) *term
+			var nodes []*term
+			var walk func(n *term, rebuild func(*term) *term)
+			walk = func(n *term, rebuild func(*term) *term) {
+				nodes = append(nodes, n)
+				sites = append(sites, rebuild)
+				for i := range n.kids {
+					i := i
+					walk(n.kids[i], func(by *term) *term {
+						c := &term{kind: n.kind, kids: append([]*term(nil), n.kids...)}
+						c.kids[i] = by
+						return rebuild(c)
+					})
 				}
-				if count == 1 {
-					for _, wrap := range []*term{{kind: "pg1", kids: []*term{only}}, {kind: "pg2", kids: []*term{only, leafTerm()}}} {
-						c := sites[i](wrap)
-						if v, fails := try(c); fails {
-							cur, curV, have, changed = c, v, true, true
-							break search
+			}
+			walk(cur, func(by *term) *term { return by })
+		search:
+			for i := 1; i < len(nodes); i++ {
+				if !isTemplate(nodes[i]) {
+					continue
+				}
+				// a form that only carries one inner form (it is needed for the types to fit, or merely sits in
+				// between) is replaced by progn around that inner form
+				if nodes[i].kind != "pg1" && nodes[i].kind != "pg2" {
+					var only *term
+					count := 0
+					for _, k := range nodes[i].kids {
+						if k.kind != "_" {
+							only = k
+							count++
+						}
+					}
+					if count == 1 {
+						for _, wrap := range []*term{{kind: "pg1", kids: []*term{only}}, {kind: "pg2", kids: []*term{only, leafTerm()}}} {
+							c := sites[i](wrap)
+							if v, fails := try(c); fails {
+								cur, curV, have, changed, again = c, v, true, true, true
+								break search
+							}
 						}
 					}
 				}
-			}
-			if 1 < nodes[i].deviations() {
-				continue
-			}
-			// a leaf form that is only needed as "some list / some integer / some value / nil"
-			for _, canon := range []string{"lst", "add", "pg1", "pg0"} {
-				if nodes[i].kind == canon {
-					break
+				// a values-returning form whose primary value is nil: (values nil x) is the canonical one
+				if d := nodes[i].deviations(); d == 2 && nodes[i].kind != "vln" {
+					c := sites[i](defaultsOf("vln"))
+					if v, fails := try(c); fails {
+						cur, curV, have, changed, again = c, v, true, true, true
+						break search
+					}
 				}
-				c := sites[i](defaultsOf(canon))
-				if v, fails := try(c); fails {
-					cur, curV, have, changed = c, v, true, true
-					break search
+				if 1 < nodes[i].deviations() {
+					continue
+				}
+				// a leaf form that is only needed as "some list / some integer / some value / nil"
+				for _, canon := range []string{"lst", "add", "pg1", "pg0"} {
+					if nodes[i].kind == canon {
+						break
+					}
+					c := sites[i](defaultsOf(canon))
+					if v, fails := try(c); fails {
+						cur, curV, have, changed, again = c, v, true, true, true
+						break search
+					}
 				}
 			}
 		}
@@ -418,7 +429,7 @@ func minimise(t *term, prefix string, budget int) (*term, verdict) {
 func exec(spec string) (res engine.Result) {
 	switch {
 	case strings.HasPrefix(spec, "raw:"):
-		o := runSlip(spec[4:], 1000000)
+		o := runSlip(spec[4:], 20000)
 		res.Outcome = "val=" + o.val + " trace=" + strings.Join(o.trace, ",") + " err=" + o.err.String()
 		return
 	case strings.HasPrefix(spec, "count:"):
